@@ -393,6 +393,15 @@ theorem variants_differ_on_unsorted_keys :
       = .ok (.arr [.struct [some (.nat 5), some (.nat 2)], .struct [some (.nat 1), some (.nat 3)]], []) := by
   refine ⟨by rfl, by rfl⟩
 
+/-- `bytes_variant_canonical` at work on the repeated-key input the map-backed variant cannot re-encode: the slice value
+(both entries kept) is written back to exactly the bytes read -/
+theorem bytes_variant_canonical_example :
+    ∃ pre, ([2,0,0,0, 1,0,0,0, 2,0,0,0, 1,0,0,0, 3,0,0,0] : Bytes) = pre ++ [] ∧
+      writeTL1 Ex.dictD 3 2 true []
+        (.arr [.struct [some (.nat 1), some (.nat 2)], .struct [some (.nat 1), some (.nat 3)]]) = .ok pre :=
+  bytes_variant_canonical {} Ex.dictD allInsts (by decide) (by decide) 3 2 true [] _ _ _ rfl
+    variants_differ_on_duplicate_key.2.1
+
 /-- `bytes_variant_canonical` applies to the dictionary descriptor: closed, no `bit` -/
 example : Ex.dictD.closed allInsts = true ∧ Ex.dictD.allOn allInsts (fun i => !i.isBitPrim) = true := by decide
 
